@@ -124,6 +124,59 @@ def run(chk):
         chk.ob(R4, "relocate_to_base|shrink#%d" % k, ("addrtab-is-last",) in st, loc=rb.loc(w),
                detail="the address table is shrunk without having tested that it is the last section in layout order")
 
+    # ------------------------------------------------------------------ C10.e layout walks use the layout order
+    R5 = "R-LAYOUT-ORDER"
+    chk.rule(R5, "every CodeHolder function that accumulates section offsets (a loop whose body reads section->alignment() or "
+                 "section->real_size()) iterates `_sections_by_order`, the order flatten() assigns offsets in - never the creation-order vector")
+    fall = chk.facts(UNIT, funcs=r"asmjit::CodeHolder::[A-Za-z_0-9]+$")
+    nl = 0
+    for fn in cfg.load_functions(fall):
+        for i, x in fn.ex.items():
+            if x["k"] != "s:CXXForRangeStmt":
+                continue
+            body_calls = {fn.e(j).get("cn") for j in fn.walk(i) if fn.e(j)["k"] == "mcall"}
+            if not ({"real_size", "alignment"} <= body_calls):
+                continue
+            # the range expression: the member named in the statement's header line
+            members = [fn.e(j).get("field") for j in fn.walk(i) if fn.e(j)["k"] == "member" and fn.e(j).get("l") == x["l"] and "section" in (fn.e(j).get("field") or "")]
+            nl += 1
+            chk.ob(R5, fn.name.replace("asmjit::", "") + "|range-for@" + (members[0] if members else "?"), members[:1] == ["_sections_by_order"], loc=fn.loc(i),
+                   detail="%s accumulates section offsets while iterating %s: sizes and offsets disagree with flatten() whenever section order and "
+                          "creation order differ" % (fn.name, members[:1] or "an unknown container"),
+                   key="layoutorder|%s" % fn.name.replace("asmjit::", ""))
+    chk.floor(R5 + ":loops", nl, 2)
+
+    # ------------------------------------------------------------------ C10.f real_size() covers both sizes
+    R6 = "R-REAL-SIZE-MAX"
+    chk.rule(R6, "Section::real_size() equals max(virtual size, buffer size) for every combination of the two (accessor expression folded over "
+                 "a grid of values, accessors inlined): a section is never laid out smaller than the bytes it holds")
+    from lib import exprfold
+    facc = chk.facts(UNIT, funcs=r"asmjit::Section::(real_size|virtual_size|buffer_size)$|asmjit::CodeBuffer::(size)$")
+    by = {fn.name: fn for fn in cfg.load_functions(facc)}
+    rs = by.get("asmjit::Section::real_size")
+    chk.need(rs is not None, "Section::real_size not found")
+    bad = None
+    nev = 0
+    try:
+        for v in (0, 1, 7, 64, 4096):
+            for b in (0, 1, 7, 64, 4096):
+                def leaf(t, node, v=v, b=b):
+                    if "virtual" in t:
+                        return v
+                    if "buffer" in t or t.endswith("_size") or "size()" in t:
+                        return b
+                    raise exprfold.Unknown()
+                got = exprfold.Folder(by, leaf).fold(rs, exprfold.Folder(by, leaf).ret_of(rs))
+                nev += 1
+                if got != max(v, b) and bad is None:
+                    bad = (v, b, got)
+    except exprfold.Unknown:
+        bad = ("?", "?", "not evaluable")
+    chk.ob(R6, "Section::real_size", bad is None, loc="asmjit/core/codeholder.h:%d" % rs.line,
+           detail="real_size() with virtual size %s and buffer size %s evaluates to %s, not to the larger of the two" % (bad or (0, 0, 0)),
+           key="realsize|max")
+    chk.floor(R6 + ":grid", nev, 25 if bad is None else 0)
+
     return chk.finish(
         level="other",
         explanation=("Structural clauses over CodeHolder's layout/copy functions: every write into the caller's buffer is proved to stay in "
